@@ -278,4 +278,20 @@ example : atoi ['+', '0', '5'] = some 5 := by decide
 example : atoi [' ', '5'] = none := by decide
 example : tags 300 25 {} [(false, []), (true, [p4]), (true, [⟨.body ['3'], 0⟩])] = [1, 2, 3] := by decide
 
+/-- **api_only_to_confirming_worker**: at the level of connections, an API request is sent only when the worker on the first
+connection confirmed the current version, and then to that worker: no request is ever served by a worker that did not confirm —
+whatever generations of workers sit behind later connections. -/
+theorem api_only_to_confirming_worker (m : Mgr) (ws : List (Option Nat)) :
+    (updateConn m ws).unconfirmed = 0 ∧ ((updateConn m ws).apiSeen = true → ws.head? = some (some m.ver)) := by
+  unfold updateConn
+  cases ws with
+  | nil => simp
+  | cons w rest =>
+    by_cases h : w = some m.ver
+    · simp [h]
+    · simp [h]
+
+example : (updateConn { ver := 3 } [some 3, some 2]).apiSeen = true := by decide
+example : (updateConn { ver := 3 } [some 2, some 3]).apiSeen = false := by decide
+
 end Nic.Verify
